@@ -23,7 +23,7 @@ def resName {α : Type} : Res α → Except String α
   | .panic p => .error s!"PANIC:{p}"
 
 /-- the snapshot layer as the protocol layer sees it -/
-def execOps (objSize : Nat → Option Nat) : Ops Tw.Snap.Snap Tw.Snap.Delta where
+def execOps (objSize : Nat → Option Nat) (refGlue : Bool := false) : Ops Tw.Snap.Snap Tw.Snap.Delta where
   empty := Tw.Snap.Snap.empty
   create a b := createDelta a.raw b.raw
   write d :=
@@ -34,6 +34,8 @@ def execOps (objSize : Nat → Option Nat) : Ops Tw.Snap.Snap Tw.Snap.Delta wher
   read bs := (resName (readDelta objSize (.bytes bs))).map (·.1)
   apply a d := (resName (a.readWithDelta d)).map (·.1)
   crc s := s.crc
+  same a b := decide (a = b)
+  emptyWhenSame := refGlue
 
 /-- the application's calls on the builder -/
 def addItems : Builder → List Item → Outcome (Except String Tw.Snap.Snap)
